@@ -136,7 +136,7 @@ theorem app_deliver_stored_current (c : Cl) (e : Ev) (mid ts tok nx : Nat)
   level 1, created in the start state (path []):   A (by 1, ts 20), B (by 0, ts 19)                      — B wins
   slot 1, created in the state reached by B ([2]): X (by 0: id 10), Y (by 3: id 11)
   losing branch, created in A's state ([1]):       L (by 1: id 12)
-  level 2, created in [2]:                         F (by 1, ts 31), C (by 0, ts 30)                      — C wins
+  level 2, created in [2]:                         F (by 3, ts 31), C (by 0, ts 30)                      — C wins
   slot 2, created in the state reached by C ([2,6]): Z (by 0: id 13) -/
 
 def r2 : Cl := initCl 2 false 5 [0, 1, 2, 3] [0, 1] 1
@@ -147,7 +147,7 @@ def mY : Ev := { n := 4, ts := 26, idnum := 4, cipher := 4, sender := 3, path :=
 def mL : Ev := { n := 5, ts := 27, idnum := 5, cipher := 5, sender := 1, path := [1], kind := .app 12 103 7 }
 def cC : Ev := { n := 6, ts := 30, idnum := 6, cipher := 6, sender := 0, path := [2], kind := .commit .selfUpdate [] }
 def mZ : Ev := { n := 7, ts := 35, idnum := 8, cipher := 7, sender := 0, path := [2, 6], kind := .app 13 104 8 }
-def cF : Ev := { n := 8, ts := 31, idnum := 2, cipher := 8, sender := 1, path := [2], kind := .commit .selfUpdate [] }
+def cF : Ev := { n := 8, ts := 31, idnum := 2, cipher := 8, sender := 3, path := [2], kind := .commit .selfUpdate [] }
 def T1 : List Ev := [cA, cB]
 def T2 : List Ev := [cF, cC]
 def chain2 : List Level := [(cB, T1), (cC, T2)]
@@ -279,5 +279,267 @@ example : ∀ r ∈ (run 0 r2 [cA, mL, cB, mX, mL]).msgs, r.mid = 12 → r.state
 example : (run 0 r2 [cA, mL]).msgs.map (fun r => (r.mid, r.state, r.epoch)) = [(12, 1, 2)] ∧
     (run 0 r2 [cA, mL, cB, mX, mL]).msgs.map (fun r => (r.mid, r.state, r.epoch)) = [(12, 3, 2), (10, 1, 2)] ∧
     (run 0 r2 [cA, mL, cB, mX, mL]).g.path = [2] := by decide
+
+/-! ### 4. the history theorem: chains of forks with message slots -/
+
+theorem rowOf_app {ep : Nat} {e : Ev} {mid ts tok : Nat} (hk : e.kind = .app mid ts tok) :
+    rowOf ep e = some { mid := mid, author := e.sender, state := 1, epoch := ep, wrapper := e.n, msgTs := ts, tok := tok } := by
+  simp [rowOf, hk]
+
+/-- the conclusions of the history theorems, from what the induction over levels and slots gives (`MsgDone`) -/
+theorem msgDone_rows {c c' : Cl} {Ls : List Level} {Ms : List (List Ev)} {sched : List (List Ev × List Ev)}
+    (h : MsgDone c Ls Ms sched c') :
+    c'.g.path = c.g.path ++ Ls.map (·.1.cipher) ∧ Uniq c'.msgs ∧
+    (∀ k lm M, sched[k]? = some lm → Ms[k]? = some M → ∀ e ∈ lm.2, e ∈ M → ∀ mid ts tok, e.kind = .app mid ts tok →
+      c'.msgs.filter (·.mid == mid) =
+        [{ mid := mid, author := e.sender, state := 1, epoch := epochOf c.g.path + k + 1, wrapper := e.n, msgTs := ts, tok := tok }]) ∧
+    (∀ mid, (∀ e ∈ Ms.flatten, appMid e ≠ some mid) →
+      (findRow mid c.msgs = none → c'.msgs.filter (·.mid == mid) = []) ∧
+      (∀ row, findRow mid c.msgs = some row → row.epoch ≤ epochOf c.g.path → c'.msgs.filter (·.mid == mid) = [row])) := by
+  refine ⟨h.path, h.uniq, ?_, ?_⟩
+  · intro k lm M hk hM e he heM mid ts tok hkind
+    exact uniq_filter h.uniq (h.stored k lm M hk hM e he heM _ (rowOf_app hkind))
+  · intro mid hmid
+    obtain ⟨h1, h2⟩ := h.kept mid hmid
+    exact ⟨fun hn => filter_nil_of_findRow_none (h1 hn), fun row hrow hle => by
+      have := h2 row hrow hle
+      have hm := (findRow_mid this).1
+      rw [← hm]
+      exact uniq_filter h.uniq (hm ▸ this)⟩
+
+/-- **messages_on_winning_branch_partial**.  A client (group present and active, retention ≥ 1, stored secrets following
+    the path, no snapshot of the current or a later epoch, id in force = the extension's id, message ids unique) and a chain
+    of forks `Ls = [(w₁,S₁), …, (wₙ,Sₙ)]` starting at its state (`ChainEv`: conditions on the EVENTS, see C01Chain), with
+    message slots `Ms = [M₁, …, Mₙ]` (`SlotsEv`): `M_k` are application messages created in the state the MIP-03 winners
+    `w₁ … w_k` lead to, by members other than the receiver, tagged with that state's nostr group id, with distinct event
+    numbers, ciphertexts and message ids (within the slot, against later slots, against the chain's commits), everything
+    unseen and unconsumed at the START.  For EVERY schedule `sched = [(l₁,m₁), …, (lₙ,mₙ)]` (`MLevelWise`) in which
+      `l_k` delivers level k — every commit of `S_k` at least once, any order, any repetition, with events that are stale
+            for the level interleaved (descendants and messages of branches that lost earlier, …) — and
+      `m_k` delivers slot k, BETWEEN level k and level k+1 (after the last level for k = n) — any of the messages of `M_k`,
+            any order, any repetition, with events that are stale for the winner's state interleaved (messages created on a
+            sibling that lost level k, for instance) —
+    the client ends on the path of the winners, message ids are still unique, and
+    (a) every message of `M_k` that was delivered in `m_k` is stored EXACTLY ONCE, with the author, message timestamp and
+        content token its sender gave it, the event number of its wrapper, state Processed (valid: neither invalidated nor
+        failed), filed under the epoch of the state it was created in — whatever levels and slots followed;
+    (b) for every message id that belongs to no slot (the id of a message created on a losing branch, say): if there was no
+        row for it at the start there is none at the end, and a row filed under an epoch up to the start epoch is the only
+        row of its id and unchanged.
+    The per-client conditions of the later levels and slots are derived, not assumed. -/
+theorem messages_on_winning_branch_partial (c : Cl) (Ls : List Level) (Ms : List (List Ev))
+    (sched : List (List Ev × List Ev)) (nx : Nat)
+    (hg : c.hasGroup = true) (ha : c.g.active = true) (hr : 1 ≤ c.retention) (hsec : SecretsOK c.g) (hbelow : Below c)
+    (hn : c.g.recNid = c.g.nid) (hu : Uniq c.msgs)
+    (hch : ChainEv c.id (core c.g) Ls) (hms : SlotsEv c.id (core c.g) Ls Ms)
+    (hfresh : ∀ e ∈ evs Ls ++ Ms.flatten, getRec c e.n = none ∧ e.cipher ∉ c.g.consumed)
+    (hw : MLevelWise (evs Ls ++ Ms.flatten) c.g.path Ls Ms sched) :
+    (run nx c (flat sched)).g.path = c.g.path ++ Ls.map (·.1.cipher) ∧ Uniq (run nx c (flat sched)).msgs ∧
+    (∀ k lm M, sched[k]? = some lm → Ms[k]? = some M → ∀ e ∈ lm.2, e ∈ M → ∀ mid ts tok, e.kind = .app mid ts tok →
+      (run nx c (flat sched)).msgs.filter (·.mid == mid) =
+        [{ mid := mid, author := e.sender, state := 1, epoch := epochOf c.g.path + k + 1, wrapper := e.n, msgTs := ts, tok := tok }]) ∧
+    (∀ mid, (∀ e ∈ Ms.flatten, appMid e ≠ some mid) →
+      (findRow mid c.msgs = none → (run nx c (flat sched)).msgs.filter (·.mid == mid) = []) ∧
+      (∀ row, findRow mid c.msgs = some row → row.epoch ≤ epochOf c.g.path →
+        (run nx c (flat sched)).msgs.filter (·.mid == mid) = [row])) :=
+  msgDone_rows (msg_chain_rest nx (evs Ls ++ Ms.flatten) Ls c Ms sched ⟨hg, ha, hr, hsec, hbelow, hn⟩ hu hch hms
+    (fun _ h => h) hfresh hw)
+
+/-- messages created on a branch that LOST are never stored by such a schedule, wherever they are offered in it: an
+    application message whose id belongs to no slot (all ids of the winning branch's messages are different) and for which
+    the client holds no row at the start has no row at the end — so none that is valid.  (Offered while the client still
+    SITS on the losing sibling — inside the level, which `MLevelWise` does not allow — it is stored and then invalidated:
+    `losing_messages_never_valid`.) -/
+theorem losing_branch_messages_absent (c : Cl) (Ls : List Level) (Ms : List (List Ev))
+    (sched : List (List Ev × List Ev)) (nx : Nat)
+    (hg : c.hasGroup = true) (ha : c.g.active = true) (hr : 1 ≤ c.retention) (hsec : SecretsOK c.g) (hbelow : Below c)
+    (hn : c.g.recNid = c.g.nid) (hu : Uniq c.msgs)
+    (hch : ChainEv c.id (core c.g) Ls) (hms : SlotsEv c.id (core c.g) Ls Ms)
+    (hfresh : ∀ e ∈ evs Ls ++ Ms.flatten, getRec c e.n = none ∧ e.cipher ∉ c.g.consumed)
+    (hw : MLevelWise (evs Ls ++ Ms.flatten) c.g.path Ls Ms sched)
+    (x : Ev) (mid ts tok : Nat) (_hx : x.kind = .app mid ts tok) (hmid : ∀ e ∈ Ms.flatten, appMid e ≠ some mid)
+    (hnone : findRow mid c.msgs = none) :
+    ∀ r ∈ (run nx c (flat sched)).msgs, r.mid ≠ mid := by
+  have h := ((messages_on_winning_branch_partial c Ls Ms sched nx hg ha hr hsec hbelow hn hu hch hms hfresh hw).2.2.2 mid hmid).1 hnone
+  intro r hr' hm
+  have : r ∈ (run nx c (flat sched)).msgs.filter (·.mid == mid) := List.mem_filter.mpr ⟨hr', by simpa using hm⟩
+  rw [h] at this
+  cases this
+
+theorem slots2_ev : SlotsEv r2.id (core r2.g) chain2 slots2 := by decide
+
+/-- non-vacuity of `messages_on_winning_branch_partial`: the two-level chain with a race at each level, two messages in
+    slot 1 (delivered out of order, one twice), one in slot 2 (twice), the losing branch's message L offered in slot 1 and
+    again inside level 2 -/
+example : (run 0 r2 (flat sched2)).g.path = [2, 6] ∧
+    (run 0 r2 (flat sched2)).msgs.filter (·.mid == 10) = [{ mid := 10, author := 0, state := 1, epoch := 2, wrapper := 3, msgTs := 101, tok := 5 }] ∧
+    (run 0 r2 (flat sched2)).msgs.filter (·.mid == 11) = [{ mid := 11, author := 3, state := 1, epoch := 2, wrapper := 4, msgTs := 102, tok := 6 }] ∧
+    (run 0 r2 (flat sched2)).msgs.filter (·.mid == 13) = [{ mid := 13, author := 0, state := 1, epoch := 3, wrapper := 7, msgTs := 104, tok := 8 }] ∧
+    (run 0 r2 (flat sched2)).msgs.filter (·.mid == 12) = [] := by
+  obtain ⟨h1, _, h3, h4⟩ := messages_on_winning_branch_partial r2 chain2 slots2 sched2 0 rfl rfl (by decide) r2_secrets r2_below rfl
+    r2_uniq chain2_ev slots2_ev (by decide) (by decide)
+  exact ⟨h1, h3 0 _ _ rfl rfl mX (by decide) (by decide) 10 101 5 rfl, h3 0 _ _ rfl rfl mY (by decide) (by decide) 11 102 6 rfl,
+    h3 1 _ _ rfl rfl mZ (by decide) (by decide) 13 104 8 rfl, (h4 12 (by decide)).1 (by decide)⟩
+
+/-- … and the table itself, computed: Y, X (slot 1, epoch 2) and Z (slot 2, epoch 3), all Processed; nothing of L -/
+example : (run 0 r2 (flat sched2)).msgs.map (fun r => (r.mid, r.author, r.state, r.epoch, r.msgTs, r.tok)) =
+    [(11, 3, 1, 2, 102, 6), (10, 0, 1, 2, 101, 5), (13, 0, 1, 3, 104, 8)] := by decide
+
+/-! ### 5. many clients -/
+
+/-- a client with the slots it receives (the messages of the winning branch it did not send itself) and its own schedule -/
+structure MParty where
+  c : Cl
+  Ms : List (List Ev)
+  sched : List (List Ev × List Ev)
+  nx : Nat
+
+def MParty.final (p : MParty) : Cl := run p.nx p.c (flat p.sched)
+
+/-- what every party must satisfy: at the first fork `T` in either role (a bystander, or a committer applying its own
+    staged commit on relay echo), its state has the common core `k0` (MLS path, members, group data), the later levels and
+    all its slots are foreign to it, unseen and unconsumed, its own schedule is level-by-level with slots -/
+structure MPartyOK (k0 : Core) (w : Ev) (T : List Ev) (rest : List Level) (p : MParty) : Prop where
+  fork : AtFork p.c T
+  below : Below p.c
+  uniq : Uniq p.c.msgs
+  start : core p.c.g = k0
+  chain : ChainEv p.c.id (coreStep k0 w) rest
+  slots : SlotsEv p.c.id k0 ((w, T) :: rest) p.Ms
+  fresh : ∀ e ∈ evs rest ++ p.Ms.flatten, getRec p.c e.n = none ∧ e.cipher ∉ p.c.g.consumed
+  sched : MLevelWise (T ++ evs rest ++ p.Ms.flatten) k0.1 ((w, T) :: rest) p.Ms p.sched
+
+theorem mparty_done (k0 : Core) (w : Ev) (T : List Ev) (rest : List Level) (hmin : IsMin w T)
+    (hcross : ∀ e1 ∈ T, ∀ e2 ∈ evs rest, e1.n ≠ e2.n ∧ e1.cipher ≠ e2.cipher) (p : MParty) (ok : MPartyOK k0 w T rest p) :
+    MsgDone p.c ((w, T) :: rest) p.Ms p.sched p.final := by
+  have hk : core p.c.g = k0 := ok.start
+  have hp : p.c.g.path = k0.1 := congrArg (fun k : Core => k.1) hk
+  exact msg_chain_run p.nx (T ++ evs rest ++ p.Ms.flatten) p.c w T rest p.Ms p.sched ok.fork ok.below ok.uniq hmin hcross
+    (by rw [hk]; exact ok.chain) (by rw [hk]; exact ok.slots) (fun _ h => h) ok.fresh (by rw [hp]; exact ok.sched)
+
+/-- **all_members_hold_same_valid_messages**.  Any list of clients that start with the same core state `k0` — at the first
+    fork each one a bystander or a committer, bystanders of the later levels — each with ITS OWN schedule (own orders, own
+    repetitions, own stale events) and its own slots (the messages of the winning branch that OTHERS sent): all end on the
+    same MLS path, and every message that two of them were both offered in its slot is stored by both exactly once, as the
+    SAME row: id, author, message timestamp, content token, wrapper, state Processed, epoch tag = the epoch of the state the
+    message was created in.  So the clients hold the same set of valid messages of the winning branch. -/
+theorem all_members_hold_same_valid_messages (ps : List MParty) (k0 : Core) (w : Ev) (T : List Ev) (rest : List Level)
+    (hmin : IsMin w T) (hcross : ∀ e1 ∈ T, ∀ e2 ∈ evs rest, e1.n ≠ e2.n ∧ e1.cipher ≠ e2.cipher)
+    (h : ∀ p ∈ ps, MPartyOK k0 w T rest p) :
+    ∀ p ∈ ps, ∀ q ∈ ps,
+      p.final.g.path = q.final.g.path ∧ core p.final.g = core q.final.g ∧
+      ∀ k lmp lmq Mp Mq, p.sched[k]? = some lmp → q.sched[k]? = some lmq → p.Ms[k]? = some Mp → q.Ms[k]? = some Mq →
+        ∀ e, e ∈ lmp.2 → e ∈ Mp → e ∈ lmq.2 → e ∈ Mq → ∀ mid ts tok, e.kind = .app mid ts tok →
+          p.final.msgs.filter (·.mid == mid) =
+            [{ mid := mid, author := e.sender, state := 1, epoch := epochOf k0.1 + k + 1, wrapper := e.n, msgTs := ts, tok := tok }] ∧
+          q.final.msgs.filter (·.mid == mid) = p.final.msgs.filter (·.mid == mid) := by
+  intro p hp q hq
+  have dp := mparty_done k0 w T rest hmin hcross p (h p hp)
+  have dq := mparty_done k0 w T rest hmin hcross q (h q hq)
+  have hpp : p.c.g.path = k0.1 := congrArg (fun k : Core => k.1) (h p hp).start
+  have hqp : q.c.g.path = k0.1 := congrArg (fun k : Core => k.1) (h q hq).start
+  refine ⟨by rw [dp.path, dq.path, hpp, hqp], by rw [dp.core, dq.core, (h p hp).start, (h q hq).start], ?_⟩
+  intro k lmp lmq Mp Mq h1 h2 h3 h4 e e1 e2 e3 e4 mid ts tok hk
+  have rp := (msgDone_rows dp).2.2.1 k lmp Mp h1 h3 e e1 e2 mid ts tok hk
+  have rq := (msgDone_rows dq).2.2.1 k lmq Mq h2 h4 e e3 e4 mid ts tok hk
+  rw [hpp] at rp
+  rw [hqp] at rq
+  exact ⟨rp, by rw [rp, rq]⟩
+
+/-- non-vacuity: the bystander 2 and client 1, the committer of A (staged, applied on relay echo, rolled back for B); client
+    1 is not offered its own message L -/
+def k1 : Cl := (stageCommit (initCl 1 false 5 [0, 1, 2, 3] [0, 1] 1) 1 20 7 .selfUpdate false).1
+def pa : MParty := { c := r2, Ms := slots2, sched := sched2, nx := 0 }
+def pb : MParty := { c := k1, Ms := slots2, sched := [([cB, cA], [mX, mY, mX]), ([cC, cF], [mZ])], nx := 0 }
+
+theorem k1_atFork : AtFork k1 T1 := by
+  obtain ⟨ho, hsec, hm, _⟩ := stage_own_commit (initCl 1 false 5 [0, 1, 2, 3] [0, 1] 1) 1 20 7 .selfUpdate false cA
+    (by decide) (by intro ep q h; simp [initCl, initG, alookup] at h) (by intro s hs; cases hs)
+    (by intro d hd; cases hd) (by decide) (by decide)
+  exact .committer cA [cB] rfl rfl (by decide) hsec hm rfl ho
+    (siblings_of_dec k1 [cB] rfl (by decide) (by decide) (by decide) (by decide) (by decide) (by decide) (by decide))
+    (by decide) (fun e => Iff.rfl)
+
+theorem later2 (id : Nat) (h : id = 1 ∨ id = 2) : ChainEv id (coreStep (core r2.g) cB) [(cC, T2)] := by
+  rcases h with rfl | rfl <;>
+  exact ⟨levelEv_of_dec _ _ _ (by decide) (by decide) (by decide) (by decide) (by decide) (by decide), by decide, by decide, trivial⟩
+
+theorem pa_ok : MPartyOK (core r2.g) cB T1 [(cC, T2)] pa :=
+  ⟨r2_atFork, r2_below, r2_uniq, rfl, later2 2 (Or.inr rfl), slots2_ev, by decide, by decide⟩
+theorem pb_ok : MPartyOK (core r2.g) cB T1 [(cC, T2)] pb :=
+  ⟨k1_atFork, (by intro s hs; cases hs), by decide, by decide, later2 1 (Or.inl rfl), by decide, by decide, by decide⟩
+
+example : pa.final.g.path = pb.final.g.path ∧
+    pb.final.msgs.filter (·.mid == 11) = pa.final.msgs.filter (·.mid == 11) ∧
+    pb.final.msgs.filter (·.mid == 13) = pa.final.msgs.filter (·.mid == 13) := by
+  have h := all_members_hold_same_valid_messages [pa, pb] (core r2.g) cB T1 [(cC, T2)] (by decide) (by decide)
+    (fun p hp => by
+      simp only [List.mem_cons, List.not_mem_nil, or_false] at hp
+      rcases hp with rfl | rfl
+      · exact pa_ok
+      · exact pb_ok) pa (by simp) pb (by simp)
+  exact ⟨h.1, (h.2.2 0 _ _ _ _ rfl rfl rfl rfl mY (by decide) (by decide) (by decide) (by decide) 11 102 6 rfl).2,
+    (h.2.2 1 _ _ _ _ rfl rfl rfl rfl mZ (by decide) (by decide) (by decide) (by decide) 13 104 8 rfl).2⟩
+
+example : pb.final.g.path = [2, 6] ∧ pb.final.g.pending = none ∧
+    pb.final.msgs.map (fun r => (r.mid, r.author, r.state, r.epoch, r.msgTs, r.tok)) =
+      [(10, 0, 1, 2, 101, 5), (11, 3, 1, 2, 102, 6), (13, 0, 1, 3, 104, 8)] := by decide
+
+/-! ### 6. the full statement (arbitrary interleavings) and its refutation -/
+
+/-- the history statement WITHOUT the slot hypothesis: whatever the order in which the commits of the chain and the
+    messages of the winning branch reach the client (each at least once, re-offered as often as one likes), every message
+    of the winning branch ends stored and valid -/
+def C02_history_full : Prop :=
+  ∀ (c : Cl) (Ls : List Level) (Ms : List (List Ev)) (l : List Ev) (nx : Nat),
+    c.hasGroup = true → c.g.active = true → 1 ≤ c.retention → SecretsOK c.g → Below c → c.g.recNid = c.g.nid → Uniq c.msgs →
+    ChainEv c.id (core c.g) Ls → SlotsEv c.id (core c.g) Ls Ms →
+    (∀ e ∈ evs Ls ++ Ms.flatten, getRec c e.n = none ∧ e.cipher ∉ c.g.consumed) →
+    (∀ e ∈ l, e ∈ evs Ls ++ Ms.flatten) → (∀ e ∈ evs Ls ++ Ms.flatten, e ∈ l) →
+    ∀ e ∈ Ms.flatten, ∀ mid ts tok, e.kind = .app mid ts tok →
+      ∃ row ∈ (run nx c l).msgs, row.mid = mid ∧ row.state = 1
+
+/-- witness 1 (open finding `handshake-before-predecessor-blocked`, as `C02.witness_message_ahead_of_commit`): X, created
+    in B's state, offered BEFORE B: the outer layer cannot open it, it is recorded Failed and refused for ever -/
+theorem witness_history_ahead :
+    (run 0 r2 [mX, cB, mX, mX]).msgs = [] ∧ (run 0 r2 [mX, cB, mX, mX]).g.path = [2] ∧
+    (deliver (run 0 r2 [mX, cB]) mX 0).2 = .unprocessable ∧
+    (run 0 r2 [cB, mX]).msgs.map (fun r => (r.mid, r.state)) = [(10, 1)] := by decide
+
+theorem C02_history_full_false : ¬ C02_history_full := by
+  intro h
+  obtain ⟨row, hrow, _⟩ := h r2 [(cB, [cB])] [[mX]] [mX, cB, mX, mX] 0 rfl rfl (by decide) r2_secrets r2_below rfl r2_uniq
+    ⟨levelEv_of_dec _ _ _ (by decide) (by decide) (by decide) (by decide) (by decide) (by decide), by decide, by decide, trivial⟩
+    (by decide) (by decide) (by decide) (by decide) mX (by decide) 10 101 5 rfl
+  rw [witness_history_ahead.1] at hrow
+  cases hrow
+
+/-- witness 2 (open finding `receiver-epoch-tag`, as `C02.witness_receiver_epoch_tag`, one level later): X, created in B's
+    state, is offered while the receiver sits on F, the LOSING commit of level 2: it is filed under the receiver's epoch 3,
+    the rollback for C invalidates it, and re-offering it is refused — although X belongs to the winning branch -/
+theorem witness_history_epoch_tag :
+    (run 0 r2 [cB, cF, mX]).msgs.map (fun r => (r.mid, r.state, r.epoch)) = [(10, 1, 3)] ∧
+    (run 0 r2 [cB, cF, mX, cC, mX]).msgs.map (fun r => (r.mid, r.state, r.epoch)) = [(10, 3, 3)] ∧
+    (run 0 r2 [cB, cF, mX, cC, mX]).g.path = [2, 6] ∧
+    (deliver (run 0 r2 [cB, cF, mX, cC]) mX 0).2 = .unprocessable := by decide
+
+theorem C02_history_full_false_epoch_tag : ¬ C02_history_full := by
+  intro h
+  obtain ⟨row, hrow, hm, hs⟩ := h r2 [(cB, [cB]), (cC, T2)] [[mX], []] [cB, cF, mX, cC, mX] 0 rfl rfl (by decide) r2_secrets r2_below rfl
+    r2_uniq
+    ⟨levelEv_of_dec _ _ _ (by decide) (by decide) (by decide) (by decide) (by decide) (by decide), by decide, by decide,
+     levelEv_of_dec _ _ _ (by decide) (by decide) (by decide) (by decide) (by decide) (by decide), by decide, by decide, trivial⟩
+    (by decide) (by decide) (by decide) (by decide) mX (by decide) 10 101 5 rfl
+  have : ∀ r ∈ (run 0 r2 [cB, cF, mX, cC, mX]).msgs, r.state ≠ 1 := by decide
+  exact this row hrow hs
+
+/-- … while the slot schedule over the same events stores X valid (`messages_on_winning_branch_partial` applies) -/
+example : (run 0 r2 (flat [([cB], [mX]), ([cF, cC], [])])).msgs.filter (·.mid == 10) =
+    [{ mid := 10, author := 0, state := 1, epoch := 2, wrapper := 3, msgTs := 101, tok := 5 }] :=
+  (messages_on_winning_branch_partial r2 [(cB, [cB]), (cC, T2)] [[mX], []] [([cB], [mX]), ([cF, cC], [])] 0 rfl rfl (by decide)
+    r2_secrets r2_below rfl r2_uniq
+    ⟨levelEv_of_dec _ _ _ (by decide) (by decide) (by decide) (by decide) (by decide) (by decide), by decide, by decide,
+     levelEv_of_dec _ _ _ (by decide) (by decide) (by decide) (by decide) (by decide) (by decide), by decide, by decide, trivial⟩
+    (by decide) (by decide) (by decide)).2.2.1 0 _ _ rfl rfl mX (by decide) (by decide) 10 101 5 rfl
 
 end MdkVerif.Props.C02Chain
